@@ -66,6 +66,13 @@ def make_leaf(f, extra=None, custom=None):
         if df is None:
           raise Undecided('t.ppf without df: %s' % t)
         return t_ppf(sym.to_sym(e.args[0], leaf), sym.to_sym(df, leaf))
+      if isinstance(e.func, ast.Attribute) and e.func.attr == 'ppf' and isinstance(e.func.value, ast.Call) and e.args \
+          and (au.lib_name(f.module, e.func.value.func) or '') == 'scipy.stats.t':
+        inner = e.func.value              # the frozen form: stats.t(df).ppf(p) is stats.t.ppf(p, df)
+        df = au.kwarg(inner, 'df') or au.arg(inner, 0)
+        if df is None:
+          raise Undecided('frozen t without df: %s' % t)
+        return t_ppf(sym.to_sym(e.args[0], leaf), sym.to_sym(df, leaf))
       if isinstance(e.func, ast.Attribute) and e.func.attr == 'ppf' and isinstance(e.func.value, ast.Call) \
           and (au.lib_name(f.module, e.func.value.func) or '') == 'scipy.stats.f':
         inner = e.func.value
@@ -112,6 +119,8 @@ def run(repo, rep, tier):
   pnames = fi.params[1:]
   psyms = {p: sym.symbol(p, True) for p in pnames}
   term = sym.to_sym(ctx.rd.expand(r, r.ast.value, depth=20, keep=tuple(pnames))[0], make_leaf(fi, psyms))
+  if len(pnames) != 5:
+    raise Undecided('_impact_estimate no longer takes (n_test, n, flevel, sig_level, power_level): found %s' % (pnames,))
   n_test, n, flevel, sig, power = (psyms[p] for p in pnames)
   # 2. impact = term(...) * sigma
   ctx2, r2 = value_of(fe)
